@@ -55,6 +55,7 @@ type thread struct {
 	desc    string
 	vc      vclock
 	name    string
+	frame   *frame // innermost active frame
 }
 
 type accessRec struct {
@@ -79,6 +80,13 @@ func (i *interpreter) resetSched() {
 	main := &thread{id: 0, wake: make(chan struct{}), vc: vclock{1}, name: "main"}
 	i.sched = &scheduler{threads: []*thread{main}, cur: main, acc: map[interface{}]*accessRec{}}
 	i.vclock = int64(0)
+}
+
+func (i *interpreter) curFrame() *frame {
+	if i.sched != nil && i.sched.cur != nil && i.sched.cur.frame != nil {
+		return i.sched.cur.frame
+	}
+	return &frame{i: i, depth: 1}
 }
 
 func (s *scheduler) multi() bool { return len(s.threads) > 1 }
